@@ -95,6 +95,7 @@ class BytesScenario(explore.Scenario):
             out.append(["dellast"])
             out.append(["delfirst"])
         out.append(["save_load"])
+        out.append(["read_views"])
         return out
 
     def ctor_ops(self):
@@ -144,6 +145,13 @@ class BytesScenario(explore.Scenario):
                 w.data = w.data[1:]
             elif kind == "save_load":
                 self.reload(w)
+            elif kind == "read_views":
+                # an observation as an operation: reading the block views may
+                # plant a cache that a later byte edit must invalidate
+                for name in ("K1", "K2"):
+                    k = w.objs[name]
+                    bytes(k.contents), k.address, k.contains_offset(0)
+                b.initialized_size, len(b.contents)
             else:
                 raise ValueError(kind)
         except Exception as e:  # noqa
@@ -233,6 +241,10 @@ class BytesScenario(explore.Scenario):
         for name in ("K1", "K2"):
             k = w.objs[name]
             o0, s0 = k.offset, k.size
+            if bytes(k.contents) != data[o0:o0 + s0]:
+                v.append(("C19/block-contents-stale",
+                          "%s (offset %d size %d) shows %r, interval holds %r"
+                          % (name, o0, s0, bytes(k.contents), data[o0:o0 + s0])))
             for off, size in itertools.product(BLOCK_DOM, BLOCK_DOM):
                 k.offset = off
                 k.size = size
